@@ -317,6 +317,10 @@ func (db *DB) OpenTransaction() (*Transaction, error) {
 		if _, err := db.rotateMem(0, true); err != nil {
 			return nil, err
 		}
+	} else if err := db.compTriggerWait(db.mcompCmdC); err != nil {
+		// The write buffer is empty, but a frozen one may still be waiting to
+		// be flushed; the transaction must not be ordered before it.
+		return nil, err
 	}
 
 	// Wait compaction when certain threshold reached.
